@@ -414,6 +414,12 @@ def files_cases(tier):
             cases.append({"part": "files", "cli": True, "save": sl, "mode": mode})
             if mode.startswith("obs"):
                 cases.append({"part": "files", "cli": True, "save": sl, "mode": mode, "grid": [2, 3]})
+    # a SEQUENTIAL-mode sweep in which both value lists contain the configured value (two runs with identical settings),
+    # with and without a pipeline seed: every run still writes and reports its own file
+    for mode in ("obs_seq", "obs_dask"):
+        for pseed in (None, 5):
+            cases.append({"part": "files", "seqdup": True, "save": [["pixel", "npy"], ["image", "fits"]], "mode": mode,
+                          "pseed": pseed})
     # the writer methods called directly, n times into one folder with automatic numbering (n > 10: two-digit numbers)
     for fmt in ("npy", "fits", "txt", "csv"):
         for n in (3, 12):
@@ -571,6 +577,85 @@ def run_default_list_case(case):
             "outcome": {"unsupported": False, "files_read_back": 0}, "sets": {"unsupported": []}}
 
 
+def run_seqdup_case(case):
+    import pyxel
+    from pyxel.observation import Observation, ParameterValues
+    from pyxel.outputs import ObservationOutputs
+
+    seed = int(os.environ.get("VERIF_SEED", "0") or 0) % 5
+    sl, mode = case["save"], case["mode"]
+    viol = []
+    tmp = tempfile.mkdtemp(prefix="vp_c19q_")
+    parent = os.path.join(tmp, "parent")
+    os.mkdir(parent)
+    clock = FakeClock().install()
+    nfiles = 0
+
+    def bad(code, what, **kw):
+        key = {"part": "files", "mode": mode.rstrip("12"), "code": code, "sweep": "sequential-with-configured-value"}
+        key.update(kw)
+        viol.append((key, f"[{mode}, sequential sweep a=[cfg, x] b=[cfg, y], pipeline_seed={case['pseed']}, save={sl}] {what}"))
+
+    try:
+        ca, cb = 1.0 + seed, 2.0
+        pipe = mk.pipeline({"photon_collection": [("props.c19_outputs.enc_all", "enc", {"a": ca, "b": cb})]})
+        out = ObservationOutputs(output_folder=parent, save_data_to_file=_save_list(sl))
+        obs = Observation(parameters=[ParameterValues(key="pipeline.photon_collection.enc.arguments.a", values=[ca, 4.0 + seed]),
+                                      ParameterValues(key="pipeline.photon_collection.enc.arguments.b", values=[cb, 3.0])],
+                          mode="sequential", outputs=out, readout=mk.readout([1.0]), with_dask=(mode == "obs_dask"),
+                          pipeline_seed=case["pseed"])
+        runs = [(ca, cb), (4.0 + seed, cb), (ca, cb), (ca, 3.0)]
+        try:
+            if mode == "obs_dask":
+                import dask
+
+                with dask.config.set(scheduler="synchronous"):
+                    res = pyxel.run_mode(obs, mk.detector("ccd", 2, 3), pipe, with_inherited_coords=True)
+                    res.load()
+            else:
+                res = pyxel.run_mode(obs, mk.detector("ccd", 2, 3), pipe, with_inherited_coords=True)
+        except Exception as e:  # noqa: BLE001
+            bad("raised", f"raised {type(e).__name__}: {str(e)[:200]}")
+            return {"viol": viol, "sig": cfgx.sig(["seqdup", mode, case["pseed"], "raised"]), "nontrivial": True, "n": 1,
+                    "outcome": {"unsupported": False, "files_read_back": 0}, "sets": {"unsupported": []}}
+        d = str(out.current_output_folder)
+        names = []
+        if "output" in res.children:
+            for node in res["/output"].subtree:
+                if "filename" in node.data_vars:
+                    names += [str(x) for x in np.asarray(node["filename"].values).ravel().tolist()]
+        names = [n for n in names if n and n != "nan"]
+        for b, f in sl:
+            mine = sorted({os.path.basename(n) for n in names if os.path.basename(n).startswith(f"detector_{b}") and n.endswith("." + f)})
+            if len(mine) != len(runs):
+                bad("report-count", f"{len(mine)} distinct reported files for bucket {b} format {f} and {len(runs)} runs: {mine}", fmt=f)
+            missing = [n for n in mine if not os.path.isfile(os.path.join(d, n))]
+            if missing:
+                bad("missing-file", f"reported files {missing} do not exist", fmt=f)
+            on_disk = sorted(fn for fn in os.listdir(d) if fn.startswith(f"detector_{b}_") and fn.endswith("." + f)
+                             and fn not in (f"detector_{b}.{f}",))
+            contents = [_read_back(os.path.join(d, fn)) for fn in on_disk if os.path.basename(fn) in mine]
+            nfiles += len(contents)
+            want = [enc_expected(a + 1000.0 * b_)[b] for a, b_ in runs]
+            left = list(want)
+            for c in contents:
+                hit = next((i for i, w in enumerate(left) if c is not None and c.shape == w.shape
+                            and np.array_equal(c.astype("float64"), w.astype("float64"))), None)
+                if hit is None:
+                    bad("wrong-content", f"a reported file of bucket {b}.{f} holds {None if c is None else c.tolist()}, which is "
+                        f"the bucket of no (remaining) run", fmt=f)
+                    break
+                left.pop(hit)
+            else:
+                if left and len(mine) == len(runs):
+                    bad("missing-file", f"{len(left)} run(s) have no file of bucket {b}.{f} holding their data", fmt=f)
+    finally:
+        clock.remove()
+        shutil.rmtree(tmp, ignore_errors=True)
+    return {"viol": viol, "sig": cfgx.sig(["seqdup", mode, case["pseed"]]), "nontrivial": True, "n": max(1, nfiles),
+            "outcome": {"unsupported": False, "files_read_back": nfiles}, "sets": {"unsupported": []}}
+
+
 _YAML_DETECTOR = """
 ccd_detector:
   geometry: {row: 2, col: 3, total_thickness: 10.0, pixel_vert_size: 2.0, pixel_horz_size: 0.5}
@@ -709,6 +794,8 @@ def run_files_case(case):
         return run_default_list_case(case)
     if case.get("cli"):
         return run_cli_case(case)
+    if case.get("seqdup"):
+        return run_seqdup_case(case)
     seed = int(os.environ.get("VERIF_SEED", "0") or 0) % 5
     sl, mode = case["save"], case["mode"]
     viol = []
